@@ -379,9 +379,14 @@ package queue
 //@ spec
 //@ ghost var sqlDepth int
 //@ ghost var sqlEvicted int
-//@ func (*SQLiteStore).activeDepthCountTx
+//@ func isSQLiteMissingCounterError
 //@   trusted
-//@   ensures result1 == nil ==> result0 == sqlDepth
+//@ func (*SQLiteStore).activeDepthCountTx
+//@   requires conn != nil
+//@   calls database/sql.(*Conn).QueryRowContext@1 requires [C12:the_depth_the_limit_is_checked_against_counts_queued_and_leased] arg2 == "\nSELECT queued, leased\nFROM queue_counters\nWHERE id = 1;\n" && nvarargs == 0
+//@   calls database/sql.(*Conn).QueryRowContext@2 requires [C12:the_fallback_depth_counts_queued_and_leased_rows] arg2 == "\nSELECT COUNT(*)\nFROM queue_items\nWHERE state IN (?, ?);\n" && nvarargs == 2 && vararg0 == "queued" && vararg1 == "leased"
+//@   sets sqlDepth := ite(result1 == nil, result0, old(sqlDepth))
+//@   modifies sqlDepth
 //@ func (*SQLiteStore).dropOldestQueued
 //@   requires s != nil && conn != nil && txOpen
 //@   modifies durable, txOpen, txPending, sqlDepth, sqlEvicted
@@ -415,9 +420,10 @@ package queue
 
 //@ func (*SQLiteStore).enqueueWithLimit
 //@   requires s != nil && s.db != nil && !txOpen && txPending == 0 && env.ID != ""
+//@   label D after call activeDepthCountTx
 //@   modifies durable, txOpen, txPending, signals, sqlDepth, sqlEvicted
 //@   calls dropOldestQueued requires [C12:evicts_only_under_drop_oldest_when_full] s.dropPolicy == "drop_oldest" && sqlDepth >= s.maxDepth && sqlEvicted == old(sqlEvicted)
-//@   calls database/sql.(*Conn).ExecContext requires [C12:stores_only_when_there_is_room_or_one_was_evicted] arg2 == "\nINSERT INTO queue_items (\n  id, route, target, state, received_at, attempt, next_run_at,\n  payload, headers_json, trace_json, schema_version, dead_reason,\n  lease_id, lease_until\n) VALUES (?, ?, ?, ?, ?, ?, ?, ?, ?, ?, ?, ?, NULL, NULL);\n" ==> sqlDepth < s.maxDepth || (sqlEvicted == old(sqlEvicted) + 1 && sqlDepth == old(sqlDepth) - 1)
+//@   calls database/sql.(*Conn).ExecContext requires [C12:stores_only_when_there_is_room_or_one_was_evicted] arg2 == "\nINSERT INTO queue_items (\n  id, route, target, state, received_at, attempt, next_run_at,\n  payload, headers_json, trace_json, schema_version, dead_reason,\n  lease_id, lease_until\n) VALUES (?, ?, ?, ?, ?, ?, ?, ?, ?, ?, ?, ?, NULL, NULL);\n" ==> sqlDepth < s.maxDepth || (sqlEvicted == old(sqlEvicted) + 1 && sqlDepth == at(D, sqlDepth) - 1)
 //@   ensures [C12:full_queue_under_reject_refuses] s.dropPolicy != "drop_oldest" && sqlDepth >= s.maxDepth ==> result != nil
 //@   ensures [C12:at_most_one_eviction_per_message_stored] sqlEvicted <= old(sqlEvicted) + 1
 //@   calls database/sql.(*Conn).ExecContext requires [C07:the_insert_carries_the_envelope_as_accepted] arg2 == "\nINSERT INTO queue_items (\n  id, route, target, state, received_at, attempt, next_run_at,\n  payload, headers_json, trace_json, schema_version, dead_reason,\n  lease_id, lease_until\n) VALUES (?, ?, ?, ?, ?, ?, ?, ?, ?, ?, ?, ?, NULL, NULL);\n" ==> nvarargs == 12 && vararg0 == env.ID && env.ID != "" && vararg1 == env.Route && vararg2 == env.Target && vararg3 == env.State && vararg5 == env.Attempt && vararg7 == env.Payload && vararg10 == env.SchemaVersion && env.Payload == old(env.Payload) && env.Route == old(env.Route) && env.Target == old(env.Target)
